@@ -649,6 +649,11 @@ class UnionProxy:
         object.__setattr__(self, "__attr__", attr)
         object.__setattr__(self, "__target__", target)
 
+    @property
+    def __class__(self) -> type[Structure]:
+        # A member of a union is an instance of its structure type, also when the other side of a comparison asks
+        return self.__target__.__class__
+
     def __len__(self) -> int:
         return len(self.__target__.dumps())
 
